@@ -309,3 +309,156 @@ if m=='M23':  # the comment rules run on a goroutine of their own while the synt
 	}
 
 	return nil''','''	return nil''')
+# ---------------------------------------------------------------- round 4 (natives, in-memory packages)
+if m=='M24':  # a package-level table of strings.Replacer objects in the strings.ReplaceAll native (unsynchronised)
+    sub('quasigo/stdlib/qstrings/qstrings.go','''func ReplaceAll(stack *quasigo.ValueStack) {
+	newPart := stack.Pop().(string)
+	oldPart := stack.Pop().(string)
+	s := stack.Pop().(string)
+	stack.Push(strings.ReplaceAll(s, oldPart, newPart))
+}''','''var replacers = map[[2]string]*strings.Replacer{}
+
+func ReplaceAll(stack *quasigo.ValueStack) {
+	newPart := stack.Pop().(string)
+	oldPart := stack.Pop().(string)
+	s := stack.Pop().(string)
+	key := [2]string{oldPart, newPart}
+	r := replacers[key]
+	if r == nil {
+		r = strings.NewReplacer(oldPart, newPart)
+		replacers[key] = r
+	}
+	stack.Push(r.Replace(s))
+}''')
+if m=='M25':  # the Type.String native remembers its last answer (pointer receiver, memo fields in the native's struct)
+    sub('libdsl.go','''		`github.com/quasilyte/go-ruleguard/dsl/types.Type`:        dslTypesType{},''','''		`github.com/quasilyte/go-ruleguard/dsl/types.Type`:        &dslTypesType{},''')
+    sub('libdsl.go','''type dslTypesType struct{}
+
+func (native dslTypesType) funcs() map[string]func(*quasigo.ValueStack) {''','''type dslTypesType struct {
+	lastType   types.Type
+	lastString string
+}
+
+func (native *dslTypesType) funcs() map[string]func(*quasigo.ValueStack) {''')
+    sub('libdsl.go','''func (dslTypesType) String(stack *quasigo.ValueStack) {
+	stack.Push(stack.Pop().(types.Type).String())
+}''','''func (native *dslTypesType) String(stack *quasigo.ValueStack) {
+	typ := stack.Pop().(types.Type)
+	if typ != native.lastType {
+		native.lastType = typ
+		native.lastString = typ.String()
+	}
+	stack.Push(native.lastString)
+}''')
+    sub('libdsl.go','''func (dslTypesType) Underlying(stack *quasigo.ValueStack) {''','''func (*dslTypesType) Underlying(stack *quasigo.ValueStack) {''')
+if m=='M26':  # GetType gets a race-free memo (sync.Map keyed by the name) in front of FindType
+    sub('libdsl.go','''type dslVarFilterContext struct {
+	state *engineState
+}''','''type dslVarFilterContext struct {
+	state *engineState
+	types *sync.Map
+}''')
+    sub('libdsl.go','''dslVarFilterContext{state: state},''','''dslVarFilterContext{state: state, types: &sync.Map{}},''')
+    sub('libdsl.go','''	fqn := stack.Pop().(string)
+	params := stack.Pop().(*filterParams)
+	typ, err := native.state.FindType(params.importer, params.ctx.Pkg, fqn)
+	if err != nil {
+		panic(err)
+	}
+	stack.Push(typ)''','''	fqn := stack.Pop().(string)
+	params := stack.Pop().(*filterParams)
+	if typ, ok := native.types.Load(fqn); ok {
+		stack.Push(typ)
+		return
+	}
+	typ, err := native.state.FindType(params.importer, params.ctx.Pkg, fqn)
+	if err != nil {
+		panic(err)
+	}
+	native.types.Store(fqn, typ)
+	stack.Push(typ)''')
+    sub('libdsl.go','''	"go/types"
+''','''	"go/types"
+	"sync"
+''')
+if m=='M27':  # the importer is kept in the caller's RunnerState and reused (one initSourceImporter per state), its table of dependency answers is keyed by the name alone
+    sub('ruleguard.go','''	object *rulesRunner
+}''','''	object *rulesRunner
+
+	importer *goImporter
+}''')
+    sub('runner.go','''	importer := newGoImporter(state, goImporterConfig{
+		fset:         ctx.Fset,
+		debugImports: ctx.DebugImports,
+		debugPrint:   ctx.DebugPrint,
+		buildContext: buildContext,
+	})''','''	if runnerState.importer == nil || runnerState.importer.fset != ctx.Fset {
+		runnerState.importer = newGoImporter(state, goImporterConfig{
+			fset:         ctx.Fset,
+			debugImports: ctx.DebugImports,
+			debugPrint:   ctx.DebugPrint,
+			buildContext: buildContext,
+		})
+	}
+	importer := runnerState.importer''')
+    sub('engine.go','''		key := depTypeKey{pkg: currentPkg, fqn: fqn}''','''		key := depTypeKey{fqn: fqn}''')
+if m=='M28':  # the file text is cached engine-wide by file NAME (under a lock)
+    sub('engine.go','''	pkgCacheMu sync.RWMutex''','''	srcMu    sync.Mutex
+	srcCache map[string][]byte
+
+	pkgCacheMu sync.RWMutex''')
+    sub('runner.go','''	// TODO(quasilyte): re-use src slice?
+	src, err := os.ReadFile(rr.filename)''','''	rr.state.srcMu.Lock()
+	defer rr.state.srcMu.Unlock()
+	if cached, ok := rr.state.srcCache[rr.filename]; ok {
+		rr.src = cached
+		return rr.src
+	}
+	if rr.state.srcCache == nil {
+		rr.state.srcCache = map[string][]byte{}
+	}
+	defer func() { rr.state.srcCache[rr.filename] = rr.src }()
+	src, err := os.ReadFile(rr.filename)''')
+    sub('runner.go','''		bgContext:      context.Background(),''','''		bgContext:      context.Background(),
+		state:          state,''')
+if m=='M29':  # xtypes.Implements keeps its verdicts in a package-level sync.Map keyed by the two type strings
+    sub('../internal/xtypes/xtypes.go','''func Implements(v types.Type, iface *types.Interface) bool {''','''var implementsMemo sync.Map
+
+func Implements(v types.Type, iface *types.Interface) bool {
+	key := v.String() + " <: " + iface.String()
+	if r, ok := implementsMemo.Load(key); ok {
+		return r.(bool)
+	}
+	r := implements0(v, iface)
+	implementsMemo.Store(key, r)
+	return r
+}
+
+func implements0(v types.Type, iface *types.Interface) bool {''')
+    sub('../internal/xtypes/xtypes.go','''import (
+''','''import (
+	"sync"
+''')
+if m=='M30':  # the printer fallback of nodeText prints into a buffer kept in the RunnerState ... which Run also uses when State is shared: no, into ONE engine-wide buffer guarded by a mutex that is released before the text is used
+    sub('engine.go','''	pkgCacheMu sync.RWMutex''','''	printMu  sync.Mutex
+	printBuf bytes.Buffer
+
+	pkgCacheMu sync.RWMutex''')
+    sub('engine.go','''import (
+''','''import (
+	"bytes"
+''')
+    sub('runner.go','''	var buf bytes.Buffer
+	if err := rr.printNode(&buf, n); err != nil {
+		panic(err)
+	}
+	return buf.Bytes()''','''	rr.state.printMu.Lock()
+	defer rr.state.printMu.Unlock()
+	buf := &rr.state.printBuf
+	buf.Reset()
+	if err := rr.printNode(buf, n); err != nil {
+		panic(err)
+	}
+	return buf.Bytes()''')
+    sub('runner.go','''		bgContext:      context.Background(),''','''		bgContext:      context.Background(),
+		state:          state,''')
